@@ -263,6 +263,13 @@ def apply_contract(run, fi, sp, env, dyn_cls, silent=False):
         run.emit('call.pre', g, '%s#%d' % (fi.qual, k), props=tuple(set(c.props or ()) | set(run.cur_props)),
                  meta={'callee': fi.qual, 'clause': c.text})
         run.st.assume(g)
+    caller_sp = getattr(run, 'top_spec', None)
+    if not silent and not sp.raises and caller_sp is not None and fi.name in caller_sp.callee_rejects and fi.cls \
+            and run.eng.repo.is_subclass(dyn_cls or fi.cls, 'BaseMAB') and len(run.frames) == 1:
+        # an implementor outside the contracts (Clusters, TreeBandit, LSHNearest, a user subclass) may reject the batch
+        # from inside training (k-means with fewer rows than clusters, a shape error): the caller must cope with it
+        if run.path.choice(2) == 1:
+            raise PyRaise('ValueError', 'rejected by the implementor in ' + fi.qual)
     if sp.raises and not silent:
         # the callee may reject the call; its own obligations show that it then leaves everything unchanged
         et = sp.raises[0] if isinstance(sp.raises, (list, tuple)) else 'Exception'
